@@ -15,6 +15,8 @@ def run(tier):
         plan = [("tumbling", dict(size=2, moo=0, al=1, maxts=5, maxev=4, cap=4000)),
                 ("tumbling", dict(size=2, moo=1, al=2, maxts=5, maxev=4, cap=4000, mc=dict(maxts=6))),
                 ("sliding", dict(size=4, slide=2, moo=1, al=1, maxts=5, maxev=4, cap=3000)),
+                # a late row in TWO open windows while the trigger goroutine fires a third one between its re-deliveries (Sliding.LateSend)
+                ("sliding", dict(size=2, slide=1, moo=0, al=4, maxts=4, maxev=4, cap=6000, closer=True)),
                 ("tumbling", dict(size=2, moo=2, al=0, maxts=5, maxev=4, cap=2000))]
         free = [("tumbling", dict(size=2, moo=1, al=2), 60, 40), ("sliding", dict(size=4, slide=2, moo=2, al=2), 40, 40),
                 ("tumbling", dict(size=3, moo=0, al=0), 30, 40),
@@ -28,6 +30,7 @@ def run(tier):
                 ("tumbling", dict(size=2, moo=1, al=3, maxts=5, maxev=4)),
                 ("sliding", dict(size=4, slide=2, moo=1, al=1, maxts=6, maxev=4)),
                 ("sliding", dict(size=3, slide=2, moo=0, al=3, maxts=6, maxev=4)),
+                ("sliding", dict(size=2, slide=1, moo=0, al=4, maxts=4, maxev=4, closer=True)),
                 ("tumbling", dict(size=2, moo=2, al=0, maxts=6, maxev=5, cap=20000))]
         free = [("tumbling", dict(size=2, moo=1, al=2), 400, 60), ("sliding", dict(size=4, slide=2, moo=2, al=2), 300, 60),
                 ("tumbling", dict(size=3, moo=0, al=0), 200, 60), ("sliding", dict(size=3, slide=1, moo=1, al=0), 200, 50),
